@@ -46,6 +46,18 @@ Proof. intros s1 s2 r resp1 resp2 H1 H2. apply read_depends_on_resources; now ap
 Theorem C14_snapshot_is_current : forall s : state V, reachable s -> st_snap s = option_map snapshot_of (st_model s).
 Proof. intros s H. apply snapshot_is_current. now apply reachable_Inv. Qed.
 
+(* 3b. Exactly the successful writes: replaying only the requests that were answered 200 and are not reads (failed
+       requests and the six read-only resources dropped) from the same start reproduces the SAME state, hence the same
+       resources.  (Besides the writes, [effective] keeps the GET /solutions/<label> requests answered 200: they load
+       the solution pool -- a cache -- and, by the second theorem, touch no readable resource.) *)
+Theorem C14_only_successful_writes_matter : forall (rs : list (request V)) (s : state V),
+  forallb wf_request rs = true -> run init_state rs = Ok s -> run init_state (effective init_state rs) = Ok s.
+Proof. intros rs s. apply only_effective_requests_matter. exact Inv_init. Qed.
+
+Theorem C14_solution_read_keeps_resources : forall (s : state V) label resp s',
+  get_solution s label = Ok (resp, s') -> resources s' = resources s /\ st_model s' = st_model s /\ st_soltable s' = st_soltable s.
+Proof. exact solution_read_keeps_resources. Qed.
+
 (* 4. Route equivalence.  FULL statement (kept visible): from any reachable state, two sequences of reads,
       whole-table PUTs, per-subcatchment PUTs and encoding PATCHes that each perform at least one successful write and
       end in the same action set leave the same model representation (id, scenario, action set, valuation, and the
@@ -163,6 +175,8 @@ Print Assumptions C14_text_verbatim.
 Print Assumptions C14_reads_do_not_write.
 Print Assumptions C14_reads_depend_on_resources_only.
 Print Assumptions C14_snapshot_is_current.
+Print Assumptions C14_only_successful_writes_matter.
+Print Assumptions C14_solution_read_keeps_resources.
 Print Assumptions C14_route_equivalence_partial.
 Print Assumptions C14_tidy_after_post_scenario.
 Print Assumptions C14_tidy_kept_by_the_routes.
